@@ -121,6 +121,9 @@ def gen_static_module(rng):
         body = ["import os, sys", "import functools, dataclasses", "from . import sibling" if rng.random() < 0.2 else "import typing"]
         for _ in range(rng.choice((1, 2, 3, 4))):
             body += gen_body(rng, 0)
+    elif rng.random() < 0.4:
+        # classes only - not a single `def` in the file (field-only dataclasses, exception hierarchies, enums)
+        body = ["import dataclasses, enum", "@dataclasses.dataclass", "class Fields:", "    x: int", "    y: 'str' = 'a'", "class MyError(Exception):", "    pass", "class Colour(enum.Enum):", "    RED = 1", "    class Nested:", "        z = 2"]
     elif rng.random() < 0.5:
         body = []  # nothing but the header
     else:
